@@ -6,6 +6,7 @@ CONSTANTS
   MaxDepth = 3
   LitSizes = {1, 3}
   ExprSizes = {1, 4}
+  XKinds = {}
   HandKinds = {0, 1}
   SideKs = {0, 1, 3}
   LeafSizes = {2}
